@@ -111,6 +111,10 @@ def mk_base(spec):
         return FixedLearner([num(p) for p in spec["pmf"]], seed=spec["seed"])
     if t == "random":
         return RandomLearner(seed=spec["seed"])
+    if t == "corral":      # a Corral as base learner of another Corral (its own bases are plain learners)
+        from coba.learners import CorralLearner
+        return CorralLearner([mk_learner(b) for b in spec["bases"]], eta=num(spec["eta"]), T=math.inf if spec["T"] == "inf" else num(spec["T"]),
+                             mode=spec["mode"], seed=spec["seed"])
     raise ValueError(t)
 
 
@@ -155,6 +159,9 @@ def learner_src(spec):
         s = "BanditUCBLearner(seed=%r)" % spec["seed"]
     elif t == "fixed":
         s = "FixedLearner(%r, seed=%r)" % ([num(p) for p in spec["pmf"]], spec["seed"])
+    elif t == "corral":
+        s = "CorralLearner([%s], eta=%r, T=%s, mode=%r, seed=%r)" % (", ".join(learner_src(b) for b in spec["bases"]), num(spec["eta"]),
+                                                                      "math.inf" if spec["T"] == "inf" else repr(num(spec["T"])), spec["mode"], spec["seed"])
     else:
         s = "RandomLearner(seed=%r)" % spec["seed"]
     for sh, sc in reversed(spec.get("mis", [])):
@@ -269,7 +276,7 @@ class Rec:
         return out
 
     def learn(self, context, action, reward, probability, **kw):
-        self.learns.append((action, reward, probability))
+        self.learns.append((action, reward, probability, kw))
         return self.inner.learn(context, action, reward, probability, **kw)
 
 
@@ -547,7 +554,16 @@ def run_corral(case, driver):
     beta = 1 / math.exp(1 / math.log(T))
     for b in case["bases"]:
         tags.append("base:" + b["type"] + ("+mis" if b.get("mis") else ""))
+        if b["type"] == "corral":
+            tags.append("nested:%s-over-%s" % (case["mode"], b["mode"]))
     c, recs, top = mk_corral(case)
+    inner = []            # (index, the CorralLearner inside base learner #index)
+    for j, r_ in enumerate(recs):
+        x = r_.inner
+        while hasattr(x, "_learner"):
+            x = x._learner
+        if hasattr(x, "_ps") and hasattr(x, "_p_bars"):
+            inner.append((j, x))
     M = len(recs)
     # benign = learning rate at most 1 and every update so far used the probability the learner's own pmf gives the action
     benign = eta <= 1
@@ -662,8 +678,21 @@ def run_corral(case, driver):
         if not (0 <= r_in <= 1):
             tags.append("reward-outside-unit-interval")   # outside the quantifier: Corral requires [0,1]
             break
+        # a base learner that is itself a Corral requires rewards in [0,1]: in importance mode the outer Corral hands it
+        # reward*1[A==action]/probability, which can exceed 1 -> that round is outside the quantifier (not run, not judged)
+        outside = False
+        for j, b in enumerate(case["bases"]):
+            if b["type"] == "corral":
+                rj = (r_in * int(bidx[j] == la) / lp) if case["mode"] == "importance" else r_in
+                rj = misguide_float(b.get("mis", []), rj)
+                if not (0 <= rj <= 1):
+                    outside = True
+        if outside:
+            tags.append("nested:inner-corral-reward-outside-unit-interval")
+            break
         before = full_state() if a_on else None
         bprobs = list(info["info"][1])
+        binfos = list(info["info"][2])
         try:
             with step_limit(case.get("step_timeout", 5)):
                 top.learn(ctx, actions[la], r, lp, **info)
@@ -679,6 +708,13 @@ def run_corral(case, driver):
         rounds += 1
         impl.append({"op": "learn", "ps": [float(x) if is_real(x) else repr(x) for x in c._ps]})
         bad = weights_ok(c)
+        for j, x in inner:
+            if not bad:
+                bad = [("(base learner %d, a nested Corral) %s" % (j, w_), "nested-" + sg_) for w_, sg_ in weights_ok(x)]
+        # every base learner gets back exactly the kwargs its own predict returned (a nested Corral needs its `info`)
+        for j, r_ in enumerate(recs):
+            if len(r_.learns) == 1 and j < len(binfos) and r_.learns[0][3] != binfos[j]:
+                A("round %d: base learner %d predicted with kwargs %s but was taught with kwargs %s" % (k, j, sorted(binfos[j]), sorted(r_.learns[0][3])), "feedback-kwargs")
         if bad:
             for what, sig in bad[:1]:
                 B("after round %d of %s (learn(%r, %r, %r, %r)) Corral's %s" % (k, corral_src(case), ctx, actions[la], r, lp, what), sig)
@@ -699,7 +735,7 @@ def run_corral(case, driver):
                     if len(r_.learns) != 1:
                         A("round %d: base learner %d was taught %d times" % (k, j, len(r_.learns)), "feedback-count")
                         break
-                    ga, gr, gp = r_.learns[0]
+                    ga, gr, gp, gkw = r_.learns[0]
                     gi = find_idx(actions, ga)
                     exp_id, exp_r, exp_p = f_[0], float(unq(f_[1])), float(unq(f_[2]))
                     base_mis = case["bases"][j].get("mis", [])
@@ -883,6 +919,16 @@ def gen_corral(rng, tier, search=False):
     M = rng.choice([1, 2, 2, 3, 3, 4, 5])
     with_fixed = rng.chance(0.3)
     bases = [gen_spec(rng, n_fixed=n if with_fixed else None, allow_mis=rng.chance(0.3), boundary=False) for _ in range(M)]
+    # nested compositions: a Corral (possibly under an in-range Misguided wrapper) as base learner of the Corral
+    if rng.chance(0.35):
+        for _ in range(rng.choice([1, 1, 2])):
+            inner = {"type": "corral", "bases": [gen_spec(rng, n_fixed=n if with_fixed else None, allow_mis=rng.chance(0.3), boundary=False)
+                                                 for _ in range(rng.choice([1, 2, 2, 3]))],
+                     "eta": q(rng.choice([0.075, 0.1, 0.5, 1, 2])), "T": rng.choice(["inf", [2, 1], [10, 1], q(1.5), [100, 1]]),
+                     "mode": rng.choice(["importance", "off-policy"]), "seed": rng.choice([1, 2, rng.randint(0, 10 ** 6)])}
+            if rng.chance(0.4):
+                inner["mis"] = [rng.choice([[[1, 1], [-1, 1]], [q(0.25), q(0.5)], [[0, 1], [1, 1]], [q(0.5), q(-0.5)]])]
+            bases[rng.below(M)] = inner
     stable = with_fixed or rng.chance(0.5)
     extreme = rng.chance(0.5 if search else 0.3)
     eta = q(rng.choice([0.01, 0.075, 0.075, 0.1, 0.25, 0.5, 1, 1]))
@@ -891,7 +937,8 @@ def gen_corral(rng, tier, search=False):
     T = rng.choice(["inf", "inf", [2, 1], [3, 1], [10, 1], [100, 1], [1000, 1], q(2.5), q(1.5), q(1.25)])
     if search and rng.chance(0.5):
         T = rng.choice([q(1.5), [2, 1], q(1.25), [3, 1]])      # strong smoothing / fast learning-rate decay
-    case = {"t": "corral", "bases": bases, "eta": eta, "T": T, "mode": rng.choice(["importance", "off-policy"]),
+    nested = any(b["type"] == "corral" for b in bases)
+    case = {"t": "corral", "bases": bases, "eta": eta, "T": T, "mode": rng.choice(["importance", "off-policy", "off-policy"] if nested else ["importance", "off-policy"]),
             "seed": rng.choice([1, 2, 0, 500, rng.randint(0, 10 ** 6), seed_for(1, 0)]), "pool": pool, "hist": []}
     if rng.chance(0.12):
         case["mis"] = [rng.choice([[[1, 1], [-1, 1]], [q(0.25), q(0.5)], [[0, 1], [1, 1]], [q(0.5), q(-0.5)]])]
@@ -1046,6 +1093,23 @@ class C16(Property):
         cs.append({"t": "corral", "bases": [{"type": "fixed", "pmf": [[1, 1], [0, 1]], "seed": 1}, {"type": "fixed", "pmf": [[0, 1], [1, 1]], "seed": 1}],
                    "eta": q(0.5), "T": "inf", "mode": "importance", "seed": 1, "pool": pool[:2], "mis": [[[1, 1], [-1, 1]]],
                    "hist": [{"actions": [[0, 0], [1, 0]], "r": [1, 2], "score": 1} for _ in range(6)]})
+        # nested compositions (Corral over Corral / over Misguided(Corral) / over Misguided(eps)), every pair of modes
+        for mode in ("off-policy", "importance"):
+            for imode in ("off-policy", "importance"):
+                nb = [{"type": "corral", "bases": [{"type": "fixed", "pmf": [[1, 1], [0, 1], [0, 1]], "seed": 1}, {"type": "random", "seed": 5}],
+                       "eta": q(0.2), "T": "inf", "mode": imode, "seed": 2},
+                      {"type": "ucb", "seed": 3},
+                      {"type": "corral", "bases": [{"type": "eps", "eps": q(0.2), "seed": 7}, {"type": "fixed", "pmf": [[0, 1], [0, 1], [1, 1]], "seed": 1}],
+                       "eta": q(0.075), "T": "inf", "mode": imode, "seed": 4, "mis": [[q(0.25), q(0.5)]]},
+                      {"type": "eps", "eps": q(0.1), "seed": 9, "mis": [[[1, 1], [-1, 1]]]}]
+                cs.append({"t": "corral", "bases": nb, "eta": q(0.1), "T": [50, 1], "mode": mode, "seed": 4, "pool": pool, "hist": rounds(40, how="on")})
+        # replays of recorded (now fixed) findings and other hand-made cases: corpus/C16/*.json
+        d = os.path.join(os.path.dirname(os.path.dirname(os.path.dirname(os.path.abspath(__file__)))), "corpus", "C16")
+        if os.path.isdir(d):
+            for nm in sorted(os.listdir(d)):
+                if nm.endswith(".json"):
+                    with open(os.path.join(d, nm), encoding="utf-8") as f:
+                        cs.append(json.load(f))
         return cs
 
     def evaluate(self, case, driver):
